@@ -170,6 +170,19 @@ class EAlias(Engine):
             ent = self._add(obj, 'init', [])
             if ent is not None:
                 ent.literal = lit
+        if cfg.get('big'):
+            # a caller's buffer of a page and more, a read-only view of it, and an immutable bitstring built from the view: the
+            # owner of the buffer can still write, and what was built from the view must not follow
+            buf = bytearray(bytes(range(256)) * 16 + b'\x5a' * (len(self.pool) % 3))
+            f = self._add(buf, 'init', [])
+            mv = memoryview(buf).toreadonly()
+            m = self._add(mv, 'init', [f.serial] if f is not None else [])
+            if f is not None and m is not None:
+                f.coupled = {m.serial}
+                m.coupled = {f.serial}
+                self.probe('readonly_view_of_writable_buffer')
+                cls = cfg.get('init', [{}])[0].get('cls')
+                self._add(getattr(self.B, cls if cls in CLASSES else 'Bits')(mv), 'ctor_from_foreign', [m.serial])
         return {'n': len(self.pool)}
 
     def cleanup(self):
@@ -517,6 +530,9 @@ class EAlias(Engine):
                 if f:
                     P(f)
                     mv = memoryview(f.obj)
+                    if (int(ev.get('src', 0)) + len(self.pool)) % 2 == 0:
+                        mv = mv.toreadonly()          # read-only for its holder - the owner of the bytearray can still write
+                        self.probe('readonly_view_of_writable_buffer')
                     made.append(mv)
                     viewed.append(f)
             elif route == 'to_array' and bsrc:
